@@ -189,10 +189,10 @@ Proof.
   apply (cexec_sim world sworld mstep sstepo marmed sarmed wstep s_step R1 R1_step R1_arm R1_ser). apply R1_init.
 Qed.
 
-Lemma conn_cidl dg idl ops : cidl (snd (mcexec (minit dg idl) ops)) = idl /\ cdg (snd (mcexec (minit dg idl) ops)) = dg.
+Lemma conn_cidl dg idl ops : cidl (snd (mcexec (minit dg idl) ops)) = idl.
 Proof.
-  unfold mcexec, minit. destruct (keep_cexec world mstep marmed wstep ops (init idl true true []) (conn_init dg idl)) as [A B].
-  split; [rewrite A|rewrite B]; reflexivity.
+  unfold mcexec, minit. rewrite (keep_cexec world mstep marmed wstep ops (init idl true true []) (conn_init dg idl)).
+  reflexivity.
 Qed.
 
 (* A request (nonzero id without reply mark) dispatched to a handler that does not defer, on a reachable
@@ -204,7 +204,7 @@ Qed.
 Lemma conn_request_answered_once dg idl ops m acts code :
   let w := fst (mcexec (minit dg idl) ops) in
   let c := snd (mcexec (minit dg idl) ops) in
-  wown w = 1 -> cclosed c = false -> (cdg c = true \/ cact c = false) ->
+  wown w = 1 -> cclosed c = false -> cgone c = false -> (cdg c = true \/ cact c = false) ->
   0 < cidl c -> cidl c <= length m -> (hd 0 m < 128)%N -> all_zero (firstn (cidl c) m) = false ->
   forallb is_reply_act acts = true ->
   let id := firstn (cidl c) m in
@@ -216,17 +216,17 @@ Lemma conn_request_answered_once dg idl ops m acts code :
        [mark id ++ paybytes p0], false) /\
     marmed w' = false /\ wown w' = 1 /\ wlog w' = wlog w ++ [mkent (wstep w) (mark id) p0].
 Proof.
-  intros w c Hown Hcl Hacc Hpos Hlen Hhd Hnz Hall id p0.
+  intros w c Hown Hcl Hgn Hacc Hpos Hlen Hhd Hnz Hall id p0.
   destruct (conn_related dg idl ops) as [HR Hc]. fold w in HR. fold c in Hc.
   set (s := fst (scexec (sinit_c dg idl) ops)) in *.
   pose proof (spec_conn_open dg idl ops) as [_ Ho]. fold s in Ho.
-  destruct (conn_cidl dg idl ops) as [Hidl _]. fold c in Hidl.
+  pose proof (conn_cidl dg idl ops) as Hidl. fold c in Hidl.
   clearbody s. clearbody w c.
   pose proof HR as [[Ro Rh Rl Rs Rorc Rc] Hs].
   assert (Hsown : s_own s = 1) by congruence.
   destruct (Ho Hsown) as (Hatt & Hptr & Hmax).
   assert (Hmax' : s_max s = cidl c) by congruence.
-  destruct (spec_request_answered_once s c m acts code Hsown Hatt Hptr Hmax' Hcl Hacc Hpos Hlen Hnz Hall)
+  destruct (spec_request_answered_once s c m acts code Hsown Hatt Hptr Hmax' Hcl Hgn Hacc Hpos Hlen Hnz Hall)
     as (s' & Hd & Hcur & Hsame & Hlog).
   assert (Hwf : req_wf c m) by (unfold req_wf; rewrite hd_firstn by lia; exact Hhd).
   destruct (dispatch_request_sim world sworld mstep sstepo marmed sarmed wstep s_step R1 R1_step R1_arm R1_ser
